@@ -8,6 +8,7 @@ CONSTANTS
  Dump = FALSE
  SkipFlag = TRUE
  CheckC20 = FALSE
+ EmptyBlockFlushes = TRUE
  WalkerCapturesNext = TRUE
 SPECIFICATION MSpec
 INVARIANTS Inv_C02_TextInDocOrderOnce Inv_C04_NoHiddenOrSkipped Inv_C07_TagsBalanced Inv_C07_ChainsMirrorSource Inv_C03_SimpleParaWhole Inv_StepEqualsRun
